@@ -223,6 +223,49 @@ Definition parse_hex (s : bytes) : xout Z :=
   | [] => OErr
   end.
 
+(* ---- net/url QueryEscape / QueryUnescape, encoding/hex ---- *)
+Definition is_alnum (c : byte) : bool :=
+  (N.leb 48 c && N.leb c 57) || (N.leb 65 c && N.leb c 90) || (N.leb 97 c && N.leb c 122).
+Definition url_unreserved (c : byte) : bool :=
+  is_alnum c || N.eqb c 45 || N.eqb c 95 || N.eqb c 46 || N.eqb c 126.
+Definition hex_upper (d : N) : byte := if N.ltb d 10 then (48 + d)%N else (55 + d)%N.
+Fixpoint url_escape (s : bytes) : bytes :=
+  match s with
+  | [] => []
+  | c :: r => if url_unreserved c then c :: url_escape r
+              else if N.eqb c 32 then 43%N :: url_escape r
+              else 37%N :: hex_upper (N.div c 16) :: hex_upper (N.modulo c 16) :: url_escape r
+  end.
+Fixpoint url_unescape (s : bytes) : option bytes :=
+  match s with
+  | [] => Some []
+  | c :: r =>
+      if N.eqb c 37 then
+        match r with
+        | h1 :: h2 :: r' =>
+            match hex_digit h1, hex_digit h2 with
+            | Some a, Some b => option_map (cons (Z.to_N (a * 16 + b))) (url_unescape r')
+            | _, _ => None
+            end
+        | _ => None
+        end
+      else option_map (cons (if N.eqb c 43 then 32%N else c)) (url_unescape r)
+  end.
+Fixpoint hex_encode (s : bytes) : bytes :=
+  match s with
+  | [] => []
+  | c :: r => digit_char (N.div c 16) :: digit_char (N.modulo c 16) :: hex_encode r
+  end.
+Fixpoint hex_decode (s : bytes) : option bytes :=
+  match s with
+  | [] => Some []
+  | h1 :: h2 :: r => match hex_digit h1, hex_digit h2 with
+                     | Some a, Some b => option_map (cons (Z.to_N (a * 16 + b))) (hex_decode r)
+                     | _, _ => None
+                     end
+  | [_] => None
+  end.
+
 (* ---- arrays of scalars ---- *)
 Definition mem_v (x : xvalue) (l : list xvalue) : bool := existsb (veq x) l.
 (* hashSafeSet.add in a loop: keep an element unless an equal one was kept (or seen) before *)
@@ -280,6 +323,13 @@ Definition nm_array_distinct : bytes := [97;114;114;97;121;95;100;105;115;116;10
 Definition nm_array_union : bytes := [97;114;114;97;121;95;117;110;105;111;110]%N.
 Definition nm_array_intersect : bytes := [97;114;114;97;121;95;105;110;116;101;114;115;101;99;116]%N.
 Definition nm_array_except : bytes := [97;114;114;97;121;95;101;120;99;101;112;116]%N.
+Definition nm_url_encode : bytes := [117;114;108;95;101;110;99;111;100;101]%N.
+Definition nm_url_decode : bytes := [117;114;108;95;100;101;99;111;100;101]%N.
+Definition nm_encode : bytes := [101;110;99;111;100;101]%N.
+Definition nm_decode : bytes := [100;101;99;111;100;101]%N.
+Definition fmt_hex : bytes := [104;101;120]%N.
+Definition fmt_url : bytes := [117;114;108]%N.
+Definition fmt_base64 : bytes := [98;97;115;101;54;52]%N.
 Definition ty_string : bytes := [115;116;114;105;110;103]%N.
 Definition ty_int : bytes := [105;110;116]%N.
 Definition ty_bigint : bytes := [98;105;103;105;110;116]%N.
@@ -297,10 +347,11 @@ Definition fx_arity (n : bytes) : option (nat * option nat) :=
   if name_in n [nm_abs; nm_sign; nm_floor; nm_ceil; nm_ceiling; nm_bitnot; nm_upper; nm_lower; nm_trim; nm_ltrim;
                 nm_rtrim; nm_length; nm_len; nm_dec2hex; nm_hex2dec; nm_chr; nm_is_null; nm_is_not_null;
                 nm_is_numeric; nm_is_string; nm_is_bool; nm_is_array; nm_is_object; nm_array_length;
-                nm_array_distinct] then ar 1 (Some 1%nat)
+                nm_array_distinct; nm_url_encode; nm_url_decode] then ar 1 (Some 1%nat)
   else if name_in n [nm_mod; nm_power; nm_pow; nm_trunc; nm_bitand; nm_bitor; nm_bitxor; nm_if_null; nm_null_if;
                      nm_startswith; nm_endswith; nm_indexof; nm_split; nm_cast; nm_array_contains;
-                     nm_array_position; nm_array_remove; nm_array_union; nm_array_intersect; nm_array_except]
+                     nm_array_position; nm_array_remove; nm_array_union; nm_array_intersect; nm_array_except;
+                     nm_encode; nm_decode]
        then ar 2 (Some 2%nat)
   else if name_in n [nm_round] then ar 1 (Some 2%nat)
   else if name_in n [nm_substring; nm_lpad; nm_rpad] then ar 2 (Some 3%nat)
@@ -536,6 +587,38 @@ Definition fx_body (n : bytes) (args : list yvalue) : yres :=
     | [v] => with_int v (fun z => if Z.ltb z 0 || Z.ltb 127 z then YErr else ystr [Z.to_N z])
     | _ => YErr
     end
+  else if bytes_eqb n nm_url_encode then
+    match args with
+    | [YS VNull] => YErr
+    | [v] => with_str v (fun s => ystr (url_escape s))
+    | _ => YErr
+    end
+  else if bytes_eqb n nm_url_decode then
+    match args with
+    | [YS VNull] => YErr
+    | [v] => with_str v (fun s => match url_unescape s with Some r => ystr r | None => YErr end)
+    | _ => YErr
+    end
+  else if bytes_eqb n nm_encode || bytes_eqb n nm_decode then
+    (* Validate: the format (and for decode the input) must be a string, the format a known one;
+       encode takes a string only *)
+    match args with
+    | [v; YS (VStr f)] =>
+        if bytes_eqb f fmt_hex || bytes_eqb f fmt_url || bytes_eqb f fmt_base64 then
+          match v with
+          | YS (VStr s) =>
+              if bytes_eqb f fmt_base64 then YUnm
+              else if bytes_eqb n nm_encode then ystr (if bytes_eqb f fmt_hex then hex_encode s else url_escape s)
+              else match (if bytes_eqb f fmt_hex then hex_decode s else url_unescape s) with
+                   | Some r => ystr r
+                   | None => YErr
+                   end
+          | _ => YErr
+          end
+        else YErr
+    | [_; _] => YErr
+    | _ => YErr
+    end
   (* ---- type tests ---- *)
   else if name_in n [nm_is_null; nm_is_not_null; nm_is_numeric; nm_is_string; nm_is_bool; nm_is_array; nm_is_object] then
     match args with [v] => ybool (fx_is n v) | _ => YErr end
@@ -596,6 +679,7 @@ End YMap.
 Definition renders_text (g : bytes) : bool :=
   name_in g [nm_upper; nm_lower; nm_trim; nm_ltrim; nm_rtrim; nm_length; nm_len; nm_concat; nm_substring;
              nm_replace; nm_startswith; nm_endswith; nm_indexof; nm_split; nm_lpad; nm_rpad; nm_cast; nm_hex2dec;
+             nm_url_encode; nm_url_decode;
              nm_greatest; nm_least].
 Definition is_call (e : xexpr) : bool :=
   match e with ECall _ _ | EParen (ECall _ _) => true | _ => false end.
